@@ -1103,3 +1103,22 @@ def ip_token(fam, args):
     (got, want, kinds), misses = _with_md5(fam, args, run)
     k = "replaced" if "replaced" in kinds else ("mask" if "mask" in kinds else "kept")
     return dict(violated=(got != want), observed=got, kind=k, detail="%r -> %r, independent scanner expects %r" % (line, got, want), misses=misses)
+
+
+@register("ip_network_contract")
+def ip_network_contract(fam, args):
+    """C05: for one preserved network: should_anonymize agrees with (mask-shaped or inside), and the image is inside iff the address is"""
+    import ipaddress
+    cfg, a = args["cfg"], args["a"]
+
+    def run():
+        an = _mk_ip(fam, cfg, 4)
+        return an.should_anonymize(a), an.anonymize(a)
+    try:
+        (should, img), misses = _with_md5(fam, args, run)
+    except Exception as e:
+        return dict(violated=True, observed="EXC:%s" % type(e).__name__, detail=repr(e))
+    n = ipaddress.ip_network(cfg["networks"][0])
+    inside = ipaddress.IPv4Address(a) in n
+    bad = (should != (not (inside or _is_mask_spec(a)))) or ((ipaddress.IPv4Address(img) in n) != inside)
+    return dict(violated=bad, observed=[should, img], detail="a=%s inside=%r should=%r image=%s" % (ipaddress.IPv4Address(a), inside, should, ipaddress.IPv4Address(img)), misses=misses)
